@@ -774,6 +774,28 @@ func (h *H) exec(wk int, cmd string, a []string, idxSeed int) (res string, msg s
 		if err != nil || json.Unmarshal(js, &back) != nil || fmt.Sprint(back) != fmt.Sprint(d) {
 			x.chk = append(x.chk, "dump does not survive a JSON round trip")
 		}
+		// a handle as a plain value, as a struct field and as a map value (none of them addressable)
+		for i, e := range d.Entities {
+			if i > 6 && i%7 != 0 {
+				continue
+			}
+			type holder struct {
+				E ecs.Entity
+				L []ecs.Entity
+			}
+			var e1 ecs.Entity
+			var h1 holder
+			var m1 map[string]ecs.Entity
+			j1, err1 := json.Marshal(e)
+			j2, err2 := json.Marshal(holder{E: e, L: []ecs.Entity{e}})
+			j3, err3 := json.Marshal(map[string]ecs.Entity{"k": e})
+			if err1 != nil || err2 != nil || err3 != nil ||
+				json.Unmarshal(j1, &e1) != nil || json.Unmarshal(j2, &h1) != nil || json.Unmarshal(j3, &m1) != nil ||
+				e1 != e || h1.E != e || len(h1.L) != 1 || h1.L[0] != e || m1["k"] != e {
+				x.chk = append(x.chk, fmt.Sprintf("handle %v does not survive a JSON round trip by value (%s %s %s)", e, j1, j2, j3))
+				break
+			}
+		}
 		for i, e := range d.Entities {
 			if i == 0 {
 				continue
